@@ -707,7 +707,9 @@ func TestKWPAllLengths(t *testing.T) {
 // ============================================================================================
 
 // TestOutOfDomain: sizes outside what the constructors and functions document give an error, never a
-// panic and never a usable result.
+// panic and never a usable result. 32- and 48-byte AES-SIV keys are only half outside (the key object
+// takes them, the primitive constructor refuses them today): either a clean refusal or an RFC 5297
+// conforming primitive is fine.
 func TestOutOfDomain(t *testing.T) {
 	rapid.Check(t, func(rt *rapid.T) {
 		detrand.Seed(rapid.Uint64().Draw(rt, "entropy"))
@@ -757,11 +759,16 @@ func TestOutOfDomain(t *testing.T) {
 			route := rapid.SampledFrom([]string{"handle", "config", "key", "keymanager"}).Draw(rt, "route")
 			variant := rapid.SampledFrom(sivVariants).Draw(rt, "variant")
 			detail = fmt.Sprintf("key=%d/%s/%s", kl, route, variant)
-			var stage string
-			_, stage, err = buildSIV(gen.BytesN(rt, "key", kl), variant, gen.KeyID(rt, "id"), route)
-			if err == nil {
-				rt.Fatalf("AES-SIV primitive built from a %d-byte key through route %s", kl, route)
+			c, stage, berr := buildSIV(gen.BytesN(rt, "key", kl), variant, gen.KeyID(rt, "id"), route)
+			if berr == nil {
+				// C08 is stated for 64-byte keys and does not demand this refusal; if a primitive comes out
+				// it must still be RFC 5297 (which defines 32- and 48-byte keys as well).
+				pt, ad := gen.Bytes(rt, "pt", 64), gen.Bytes(rt, "ad", 64)
+				c.decryptMust(rt, "own", c.encryptChecked(rt, pt, ad), ad, pt)
+				evid.Case("outofdomain/"+kind+"/built", true, evid.NewH().S(kind).S(detail).B(c.key).Sum(), func() any { return detail + ": built and correct" })
+				return
 			}
+			err = berr
 			detail += "/refused-at-" + stage
 		case "siv-key-size":
 			kl := rapid.IntRange(0, 130).Draw(rt, "kl")
